@@ -198,6 +198,14 @@ def call_builtin(fr, f, args: list, kwargs: dict, node: ast.AST | None) -> Any:
         hook = I.stubs.get("hook:float")
         if hook:
             return hook(fr, v, node)
+        if isinstance(v, SStr) and not v.is_concrete():
+            # text that is not known: whether it spells a number is an open question, decided once per path
+            def spells_number():
+                raise Undecided(f"float({v.describe()}) succeeds")
+
+            if I.decide(spells_number, f"float({v.describe()}) succeeds"):
+                return av.opaque_num("float", (v,), None, None, True)
+            raise pai.PyExc("ValueError", (f"could not convert string to float: {v.describe()}",), node)
         raise AnalysisError(f"float() of {v!r}")
     if name == "list":
         return list(fr.iterate(args[0])) if args else []
